@@ -1,3 +1,194 @@
 package gendriver
 
-func doHistory(full string, ops []string) string { return "driver-error history not built" }
+import (
+	"bytes"
+	"strconv"
+	"strings"
+
+	"github.com/CrowdStrike/csproto"
+	gogoproto "github.com/gogo/protobuf/proto"
+	"google.golang.org/protobuf/proto"
+	"google.golang.org/protobuf/reflect/protoreflect"
+)
+
+// fresh deep copy through the runtime (never copies the size cache), marshaled by the generated code
+func freshMarshal(m interface{}) string {
+	return guard(func() string {
+		var c interface{}
+		if runtimeName == "gogo" {
+			c = gogoproto.Clone(m.(gogoproto.Message))
+		} else {
+			c = proto.Clone(m.(proto.Message))
+		}
+		b, err := c.(marshaler).Marshal()
+		if err != nil {
+			return "err"
+		}
+		return hx(b)
+	})
+}
+
+// Size() of a fresh deep copy
+func freshSize(m interface{}) string {
+	return guard(func() string {
+		var c interface{}
+		if runtimeName == "gogo" {
+			c = gogoproto.Clone(m.(gogoproto.Message))
+		} else {
+			c = proto.Clone(m.(proto.Message))
+		}
+		return strconv.Itoa(c.(sizer).Size())
+	})
+}
+
+func navigate(root protoreflect.Message, path string) protoreflect.Message {
+	cur := root
+	if path == "-" {
+		return cur
+	}
+	for _, t := range strings.Split(path, ".") {
+		n, _ := strconv.Atoi(t)
+		fd := cur.Descriptor().Fields().ByNumber(protoreflect.FieldNumber(n))
+		if fd == nil || fd.Kind() != protoreflect.MessageKind || fd.IsList() || fd.IsMap() || !cur.Has(fd) {
+			return nil
+		}
+		cur = cur.Get(fd).Message()
+	}
+	return cur
+}
+
+// HI: an operation history on one message.  Tokens:
+//   S:<path>:<num>:<hex>  assign field num of the message at path from the message encoded by hex (cleared when hex does not set it)
+//   Z size   M marshal   T marshal-to(make(Size()))   RS runtime size   U:<hex> unmarshal   R reset   K clone
+// Marshal-like results are printed as <bytes>/<bytes of marshaling a fresh deep copy>.
+func doHistory(full string, ops []string) string {
+	m, err := newMessage(full)
+	if err != nil {
+		return "driver-error " + err.Error()
+	}
+	var out []string
+	for _, op := range ops {
+		f := strings.Split(op, ":")
+		res := guard(func() string {
+			switch f[0] {
+			case "S":
+				target := navigate(reflectOf(m), f[1])
+				if target == nil {
+					return "nopath"
+				}
+				num, _ := strconv.Atoi(f[2])
+				fd := target.Descriptor().Fields().ByNumber(protoreflect.FieldNumber(num))
+				if fd == nil {
+					return "nopath"
+				}
+				tmp := target.New()
+				if b := unhex(f[3]); len(b) > 0 {
+					if err := (proto.UnmarshalOptions{AllowPartial: true}).Unmarshal(b, tmp.Interface()); err != nil {
+						return "driver-error " + err.Error()
+					}
+				}
+				if tmp.Has(fd) {
+					target.Set(fd, tmp.Get(fd))
+				} else {
+					target.Clear(fd)
+				}
+				return "ok"
+			case "Z":
+				return strconv.Itoa(m.(sizer).Size()) + "/" + freshSize(m)
+			case "M":
+				b, err := m.(marshaler).Marshal()
+				if err != nil {
+					return "err/" + freshMarshal(m)
+				}
+				return hx(b) + "/" + freshMarshal(m)
+			case "T":
+				sz := m.(sizer).Size()
+				buf := bytes.Repeat([]byte{0xA5}, sz)
+				if err := m.(marshalerTo).MarshalTo(buf); err != nil {
+					return "err/" + freshMarshal(m)
+				}
+				return hx(buf) + "/" + freshMarshal(m)
+			case "RS":
+				if runtimeName == "gogo" {
+					type xs interface{ XXX_Size() int }
+					return strconv.Itoa(m.(xs).XXX_Size()) + "/" + freshSize(m)
+				}
+				return strconv.Itoa(proto.Size(m.(proto.Message))) + "/" + freshSize(m)
+			case "U":
+				if err := m.(unmarshaler).Unmarshal(unhex(f[1])); err != nil {
+					return "err"
+				}
+				return "ok"
+			case "R":
+				csproto.Reset(m)
+				return "ok"
+			case "K":
+				c := csproto.Clone(m)
+				if c == nil {
+					return "driver-error clone returned nil"
+				}
+				m = c
+				return "ok"
+			}
+			return "driver-error bad op"
+		})
+		res = strings.ReplaceAll(res, " ", "_")
+		out = append(out, res)
+		if res == "panic" {
+			// the message may be in any state now; stop
+			break
+		}
+	}
+	return strings.Join(out, " ")
+}
+
+// CC: G goroutines call Size() and Marshal() on one shared message that nobody mutates (C09, concurrent clause)
+func doConcurrent(full string, value []byte, g, iters int) string {
+	m, err := newMessage(full)
+	if err != nil {
+		return "driver-error " + err.Error()
+	}
+	if err := populate(m, value); err != nil {
+		return "populate-error"
+	}
+	want := freshMarshal(m)
+	if want == "err" || want == "panic" {
+		return "skip"
+	}
+	wantB := unhex(want)
+	bad := make(chan string, g)
+	done := make(chan struct{})
+	for i := 0; i < g; i++ {
+		go func(i int) {
+			defer func() {
+				if x := recover(); x != nil {
+					bad <- "panic"
+				}
+				done <- struct{}{}
+			}()
+			for k := 0; k < iters; k++ {
+				if (i+k)%2 == 0 {
+					if n := m.(sizer).Size(); n != len(wantB) {
+						bad <- "size " + strconv.Itoa(n)
+						return
+					}
+				} else {
+					b, err := m.(marshaler).Marshal()
+					if err != nil || len(b) != len(wantB) {
+						bad <- "marshal differs"
+						return
+					}
+				}
+			}
+		}(i)
+	}
+	for i := 0; i < g; i++ {
+		<-done
+	}
+	select {
+	case s := <-bad:
+		return "mismatch " + s
+	default:
+	}
+	return "ok"
+}
